@@ -64,7 +64,7 @@ func caseSinks(p *core.Prog) (sinks []core.CaseSink, nFns int) {
 
 func c08(c *core.Check) {
 	p := c.Prog
-	c.Explain = "Structural necessary conditions of spelling-independence and of dropping bad declarations alone: (R1) text that CSS treats ASCII case-insensitively never reaches a comparison, prefix test or table lookup against a lettered constant without ASCII lowercasing (taint over SSA with return summaries; custom properties recognised by their -- test); (R2) the shorthand tables are complete and inverse, every shorthand has an expander, and an expander only emits longhands its wrapper declares; the four-sides longhands exist; (R3) in the declaration loop a validation error leads to the next declaration only, never to a return or to an append; (R4) expanders and validators receive the declaration's tokens with white space and comments removed; (R5) var() resolution follows custom properties under a visited set. That an expander assigns the right tokens to the right longhand, and var() substitution semantics, are not decided."
+	c.Explain = "Structural necessary conditions of spelling-independence and of dropping bad declarations alone: (R1) text that CSS treats ASCII case-insensitively never reaches a comparison, prefix test or table lookup against a lettered constant without ASCII lowercasing (taint over SSA with return summaries; custom properties recognised by their -- test); (R2) the shorthand tables are complete and inverse, every shorthand has an expander, and an expander only emits longhands its wrapper declares; the four-sides longhands exist; (R3) in the declaration loop a validation error leads to the next declaration only, never to a return or to an append; (R4) expanders and validators receive the declaration's tokens with white space and comments removed; (R5) var() resolution follows custom properties under a visited set. That an expander assigns the right tokens to the right longhand, and var() substitution semantics, are not decided. Also decided: (R5, extended) the set of names being resolved is a stack: insertions are undone when the resolution returns; (R9) comments are skipped wherever white space is; (R10) the unitless-zero rule of the flex shorthand for all 32 assignments."
 	rArgs := c.Rule("R8", "no call passes two same-typed arguments under each other's parameter names (swapped arguments): every pair of arguments named after the callee's parameters is aligned with them", 4)
 	argNameRule(c, rArgs, "css/validation", nil, 6)
 	c.Assume = []string{"String.Value, URL.Value, Hash.Value and Literal.Value are case-sensitive or letter-free by CSS and are not sources", "a raw value parked in a struct field and compared elsewhere is not followed (heap flows)"}
